@@ -71,15 +71,139 @@ def _b(x):
     raise TypeError("not a boolean spec value: %r" % (x,))
 
 
+def timed_check(solver, ms, *assumptions):
+    """solver.check() under the solver's own timeout.  (Interrupting the z3 context from a timer thread was tried
+    and abandoned: it corrupted solver state - a later Z3_solver_assert crashed.  Overruns of the string solver are
+    instead avoided by non-incremental feasibility queries, see SymCtx.feasible, and bounded by the per-unit
+    watchdog of the runner.)"""
+    try:
+        return solver.check(*assumptions)
+    except z3.Z3Exception:
+        return z3.unknown
+
+
+_SYM_CACHE = {}
+
+
+def _symbols(e):
+    """ids of the uninterpreted constants/functions occurring in e (memoised per term id)."""
+    k = e.get_id()
+    r = _SYM_CACHE.get(k)
+    if r is not None:
+        return r
+    out = set()
+    seen = set()
+    stack = [e]
+    while stack:
+        x = stack.pop()
+        i = x.get_id()
+        if i in seen:
+            continue
+        seen.add(i)
+        if z3.is_quantifier(x):
+            stack.append(x.body())
+            continue
+        if z3.is_app(x):
+            if x.decl().kind() == z3.Z3_OP_UNINTERPRETED:
+                out.add(x.decl().name())
+            stack.extend(x.children())
+    if len(_SYM_CACHE) > 200000:
+        _SYM_CACHE.clear()
+    _SYM_CACHE[k] = out
+    return out
+
+
+def _arith_abstraction(pc, goal):
+    """Sound pre-check for queries that the string solver chokes on: replace every Length(t) by a fresh integer
+    (>= 0), drop the path constraints that still mention strings, keep the rest.  The abstraction has at least
+    the models of the original, so `unsat` carries over.  Returns the list of abstract constraints for
+    pc and not goal, or None when the goal itself still mentions strings."""
+    cache, lens = {}, {}
+
+    def is_stringy(sort):
+        return sort.kind() in (z3.Z3_SEQ_SORT, z3.Z3_RE_SORT)
+
+    def ab(e):
+        k = e.get_id()
+        if k in cache:
+            return cache[k]
+        r = None
+        if z3.is_app(e) and e.decl().kind() == z3.Z3_OP_SEQ_LENGTH:
+            key = e.arg(0).get_id()
+            if key not in lens:
+                lens[key] = z3.Int("len!abs!%d" % len(lens))
+            r = lens[key]
+        elif is_stringy(e.sort()):
+            r = False
+        elif z3.is_quantifier(e):
+            r = False
+        elif z3.is_app(e):
+            kids = [ab(ch) for ch in e.children()]
+            if any(x is False for x in kids):
+                r = False
+            elif kids:
+                try:
+                    r = e.decl()(*kids)
+                except Exception:
+                    r = False
+            else:
+                r = e
+        else:
+            r = False
+        cache[k] = r
+        return r
+    g = ab(goal)
+    if g is False:
+        return None
+    out = [z3.Not(g)]
+    for c in pc:
+        a = ab(c)
+        if a is not False:
+            out.append(a)
+    out.extend(v >= 0 for v in lens.values())
+    return out
+
+
 def solve(pc, goal, want_model=True, z3_ms=None, cvc5_ms=None):
     """Decide pc => goal.  Returns (status, model_or_None, secs, backend, note)."""
     t0 = time.time()
+    # (1) the goal is literally one of the hypotheses (or a hypothesis is its negation's negation): no solver needed
+    gid = goal.get_id()
+    for c in pc:
+        if c.get_id() == gid:
+            return "discharged", None, time.time() - t0, "simplify", "goal is a hypothesis"
+    # (2) hypotheses that directly share an uninterpreted symbol with the goal often suffice, and keep the string
+    #     solver away from the unrelated bulk of a long path condition (unsat of a subset carries over)
+    try:
+        gs = _symbols(goal)
+        sub = [c for c in pc if _symbols(c) & gs]
+        if gs and 0 < len(sub) < len(pc):
+            ss = z3.Solver()
+            ss.set("timeout", 2000)
+            for c in sub:
+                ss.add(c)
+            ss.add(z3.Not(goal))
+            if timed_check(ss, 2000) == z3.unsat:
+                return "discharged", None, time.time() - t0, "z3", "subset of hypotheses sharing symbols with the goal"
+    except Exception:
+        pass
+    try:
+        ab = _arith_abstraction(pc, goal)
+    except Exception:
+        ab = None
+    if ab is not None and len(ab) < len(pc) + 1 + 64:
+        sa = z3.Solver()
+        sa.set("timeout", 1500)
+        for c in ab:
+            sa.add(c)
+        if timed_check(sa, 1500) == z3.unsat:
+            return "discharged", None, time.time() - t0, "z3", "length/arithmetic abstraction"
     s = z3.Solver()
     s.set("timeout", z3_ms or Z3_TIMEOUT_MS)
     for c in pc:
         s.add(c)
     s.add(z3.Not(goal))
-    r = s.check()
+    r = timed_check(s, z3_ms or Z3_TIMEOUT_MS)
     if r == z3.unknown and (cvc5_ms or CVC5_TIMEOUT_MS) <= 0:
         return "undecided", None, time.time() - t0, "z3", "z3 unknown(%s)" % s.reason_unknown()
     if r == z3.unsat:
@@ -103,6 +227,44 @@ def solve(pc, goal, want_model=True, z3_ms=None, cvc5_ms=None):
 
 
 def _cvc5_check(smt2_text, timeout_ms):
+    """cvc5 in a forked child with a hard wall-clock limit (its own tlimit is not always honoured on string
+    queries); anything but a clean sat/unsat answer is `unknown`."""
+    import select
+    import signal
+    r, w = os.pipe()
+    pid = os.fork()
+    if pid == 0:
+        code = 0
+        try:
+            os.close(r)
+            res, _ = _cvc5_inproc(smt2_text, timeout_ms)
+            os.write(w, res.encode())
+        except BaseException:
+            code = 1
+        finally:
+            os._exit(code)
+    os.close(w)
+    res = "unknown"
+    try:
+        ready, _, _ = select.select([r], [], [], timeout_ms / 1000.0 * 1.3 + 3.0)
+        if ready:
+            data = os.read(r, 64).decode(errors="replace").strip()
+            if data in ("sat", "unsat"):
+                res = data
+    finally:
+        os.close(r)
+        try:
+            os.kill(pid, signal.SIGKILL)
+        except OSError:
+            pass
+        try:
+            os.waitpid(pid, 0)
+        except OSError:
+            pass
+    return res, "cvc5"
+
+
+def _cvc5_inproc(smt2_text, timeout_ms):
     import cvc5
     slv = cvc5.Solver()
     slv.setOption("tlimit-per", str(timeout_ms))
@@ -223,7 +385,17 @@ class SymCtx:
 
     # ---------------------------------------------------------------- control
     def feasible(self, cond):
-        r = self.path.solver.check(cond)
+        if getattr(self, "fresh_feasibility", False):
+            # string-heavy units: z3's incremental mode (check with assumptions on a solver that keeps growing) skips
+            # the preprocessing its string procedures need and overruns its timeout by minutes; a fresh solver per
+            # query decides the same question in milliseconds (measured, DESIGN §9)
+            s = z3.Solver()
+            s.set("timeout", FEAS_TIMEOUT_MS)
+            for c in self.path.pc:
+                s.add(c)
+            s.add(cond)
+            return timed_check(s, FEAS_TIMEOUT_MS) != z3.unsat
+        r = timed_check(self.path.solver, FEAS_TIMEOUT_MS, cond)
         return r != z3.unsat
 
     def branch(self, cond):
@@ -269,7 +441,8 @@ class SymCtx:
 
     def _add(self, c):
         self.path.pc.append(c)
-        self.path.solver.add(c)
+        if not getattr(self, "fresh_feasibility", False):
+            self.path.solver.add(c)
         known = self.path.__dict__.setdefault("known_ids", {})
         known[c.get_id()] = True
         if z3.is_not(c):
@@ -292,7 +465,7 @@ class SymCtx:
 
     def assume_feasible(self, cond):
         self.assume(cond)
-        if self.path.solver.check() == z3.unsat:
+        if not self.feasible(z3.BoolVal(True)):
             raise PathEnd()
 
     def end_path(self):
